@@ -76,6 +76,12 @@ def run_chunk(chunk, tier, seed):
         for p2 in ps:
             for z in ps:
                 _do(acc, {"edge": "odo", "kind": kind, "p1": p1, "p2": p2, "z": z})
+        # residuals of thousands of units (a vertex or a measurement far away): the error is still the plain difference
+        d = G.DIM[kind]
+        far = [2500.0, -1800.0, 900.0][:d]
+        for q in ps[: min(len(ps), 4)]:
+            _do(acc, {"edge": "odo", "kind": kind, "p1": p1, "p2": far + list(q[d:]), "z": q})
+            _do(acc, {"edge": "odo", "kind": kind, "p1": p1, "p2": q, "z": [-x for x in far] + list(q[d:])})
     else:
         p1 = A.poses(kind, tier, seed)[i]
         pk = I.POINT_OF[kind]
@@ -141,7 +147,12 @@ def build_edge(case):
     v1 = I.Vertex(1, I.mk_pose(kind, case["p1"]))
     v2 = I.Vertex(2, I.mk_pose(pk, case["l"]))
     n = I.COMPACT[pk]
-    return I.EdgeLandmark([1, 2], np.eye(n), I.mk_pose(pk, case["z"]), offset=I.mk_pose(kind, case["off"]), vertices=[v1, v2]), n
+    # history carried by every case: another landmark edge with an IDENTITY offset and the same offset id (offset ids only matter for
+    # export; two graphs may both number their sensor offsets from 0) has already been differentiated in this process
+    w1 = I.Vertex(11, I.mk_pose(kind, G.identity(kind)))
+    w2 = I.Vertex(12, I.mk_pose(pk, [0.5, -0.25, 0.75][:n]))
+    I.EdgeLandmark([11, 12], np.eye(n), I.mk_pose(pk, [0.0] * n), offset=I.mk_pose(kind, G.identity(kind)), offset_id=0, vertices=[w1, w2]).calc_jacobians()
+    return I.EdgeLandmark([1, 2], np.eye(n), I.mk_pose(pk, case["z"]), offset=I.mk_pose(kind, case["off"]), offset_id=0, vertices=[v1, v2]), n
 
 
 def _eval(case):
